@@ -32,7 +32,7 @@ package mdiff
 //@ spec consumes(e Edit) int := ite(e.Op == slice.OpCopy, 0, len(e.X))
 //@ spec produces(e Edit) int := ite(e.Op == slice.OpDrop, 0, ite(e.Op == slice.OpEmit, len(e.X), len(e.Y)))
 //@ pred editDesc(e Edit, L []string, R []string, l int, r int) := (e.Op == slice.OpDrop || e.Op == slice.OpCopy || e.Op == slice.OpReplace || e.Op == slice.OpEmit) && 0 <= l && 0 <= r
-//@+     && (e.Op != slice.OpCopy ==> l + len(e.X) <= len(L) && (forall j int :: {e.X[j]} 0 <= j && j < len(e.X) ==> streq(e.X[j], L[l + j + 1])))
+//@+     && (e.Op != slice.OpCopy ==> l + len(e.X) <= len(L) && (forall j int :: {e.X[j]} 0 <= j && j < len(e.X) ==> streq(e.X[j], L[l + j])))
 //@+     && (e.Op == slice.OpCopy || e.Op == slice.OpReplace ==> r + len(e.Y) <= len(R) && (forall j int :: {e.Y[j]} 0 <= j && j < len(e.Y) ==> streq(e.Y[j], R[r + j])))
 //@+     && (e.Op == slice.OpEmit ==> r + len(e.X) <= len(R) && (forall j int :: {e.X[j]} 0 <= j && j < len(e.X) ==> streq(e.X[j], R[r + j])))
 //@ pred chunkDesc(c *Chunk, L []string, R []string) := c != nil && allocated(c) && 1 <= c.LStart && 1 <= c.RStart && c.LStart <= c.LEnd && c.RStart <= c.REnd && c.LEnd <= len(L) + 1 && c.REnd <= len(R) + 1
